@@ -443,7 +443,11 @@ func (e *Engine) violate(s *State, kind, msg string, extra *Term, in ssa.Instruc
 		return
 	}
 	e.seenFind[keyS] = true
-	e.Findings = append(e.Findings, Finding{Kind: kind, Msg: msg, Pos: pos, Func: fn, Stack: e.stack(s), Model: m, Arrays: arrays, Reach: append([]string(nil), s.Reach...), Sched: append([]int(nil), s.Sched...)})
+	pcx := s.PC
+	if extra != nil {
+		pcx = append(append([]*Term(nil), s.PC...), extra)
+	}
+	e.Findings = append(e.Findings, Finding{Kind: kind, Msg: msg, Pos: pos, Func: fn, Stack: e.stack(s), Model: m, Arrays: arrays, Reach: append([]string(nil), s.Reach...), Sched: append([]int(nil), s.Sched...), UF: e.ufTable(pcx, m)})
 }
 
 func (e *Engine) model(s *State, extra *Term) (map[string]string, map[string][]int, bool) {
